@@ -68,7 +68,7 @@ Proof.
 Qed.
 Print Assumptions C24_gap_free_when_ordered.
 
-(* ---- writer, ALL schedules, any number of threads, the code as it is ------------------
+(* ---- writer, ALL schedules, any number of threads, both variants ------------------------
    Sequence numbers are never duplicated or lost: each number 1..next is in exactly one of
    {written to the wire, waiting in the channel, reported dropped, held by a writer between
    assignment and enqueue}. *)
@@ -78,9 +78,39 @@ Theorem C24_writer_seq_exactly_once : forall atomic excl cap s ts,
 Proof. exact writer_exactly_once. Qed.
 Print Assumptions C24_writer_seq_exactly_once.
 
-(* ---- writer order: REFUTED for the code as it is -------------------------------------
-   "for all interleavings the queue order is strictly increasing in sequence" is false:
-   assignment (s.sequence.Add(1)) and the channel send are separate steps. *)
+(* ---- payload integrity, ALL schedules, both variants ------------------------------------
+   Every entry written to the wire or waiting in the channel is an entry of the assignment log:
+   it carries exactly the payload that was handed to Sender.Replicate under its sequence (the
+   model's queued entry is a VALUE; the implementation must not alias a buffer it reuses - the
+   correspondence checks that on the implementation's own output with case_oracle_payload);
+   dropped sequences were assigned; the log holds the sequences 1..next in order.  Together with
+   C24_applied_sound: whatever the wire adversary does, every applied entry carries the payload
+   appended under its sequence. *)
+Theorem C24_payload_integrity : forall atomic excl cap s ts,
+  reach atomic excl cap s ts ->
+  (forall e, In e (sent s ++ chan s) -> In e (alog s)) /\
+  (forall x, In x (dropped s) -> In x (map e_seq (alog s))) /\
+  map e_seq (alog s) = map Z.of_nat (seq 1 (length (alog s))) /\ next_seq s = Z.of_nat (length (alog s)).
+Proof.
+  intros atomic excl cap s ts H. destruct (reach_invP _ _ _ _ _ H) as [H1 [_ [H3 [H4 H5]]]]. auto.
+Qed.
+Print Assumptions C24_payload_integrity.
+
+Theorem C24_applied_payloads_appended : forall atomic excl cap s ts c wire last cum aok,
+  reach atomic excl cap s ts -> unforgeable (rc_key c) (sent s) wire ->
+  Forall (fun e => In e (alog s)) (applied (recv c last cum aok wire)).
+Proof.
+  intros atomic excl cap s ts c wire last cum aok Hr Hu.
+  destruct (applied_sound c (sent s) wire last cum aok Hu) as [H1 _].
+  destruct (reach_invP _ _ _ _ _ Hr) as [Hq _].
+  eapply Forall_impl; [|exact H1]. cbn. intros e He. apply Hq. apply in_or_app. left. exact He.
+Qed.
+Print Assumptions C24_applied_payloads_appended.
+
+(* ---- writer order of the PREVIOUS variant (before /repo 0ff8801): REFUTED ---------------
+   With assignment (s.sequence.Add(1)) and the channel send as separate steps (atomic = false),
+   "for all interleavings the queue order is strictly increasing in sequence" is false.  The
+   current code holds enqueueMu across both (atomic = true): C24_writer_order_fixed, C24_complete. *)
 Theorem C24_writer_order_refuted :
   ~ (forall cap s ts, reach false false cap s ts -> StronglySorted Z.lt (queued s)).
 Proof. exact writer_order_refuted. Qed.
@@ -99,7 +129,7 @@ Proof.
 Qed.
 Print Assumptions C24_healthy_connection_dropped.
 
-(* ---- writer order: guarded (the code as it is) and fixed -----------------------------
+(* ---- writer order: current protocol (fixed) and the previous variant guarded ---------
    The order holds for every schedule in which no writer executes the sequence assignment
    while another writer is between assignment and enqueue (excl = true; exactly the class
    the refutation lives in), and for EVERY schedule of the corrected protocol in which
